@@ -121,7 +121,8 @@ def explore(exe, harness_args, depth, deadline_s, k=1, nworkers=16, env=None, ma
             new = []
             for lines in res:
                 handle_lines(lines, new)
-            stats['transitions'] += ntrans; stats['executions'] += ntrans
+            done = sum(sum(1 for l in (lines or []) if l[:2] in ('R ', 'V ')) for lines in res)
+            stats['transitions'] += done; stats['executions'] += done
             if stats['capped']:
                 break
             # probes for new keys
